@@ -729,8 +729,23 @@ def _h_dot(a, b, out=None):
     return res
 
 
-def _h_isclose(*a, **k):
-    raise Unsupported("isclose on symbolic arrays")
+def _isclose(a, b, rtol=1e-05, atol=1e-08, equal_nan=False):
+    """numpy's definition |a - b| <= atol + rtol |b|, decided on the path (each element comparison may fork)."""
+    def f(x, y):
+        nx, ny = (not is_sym(x)) and x != x, (not is_sym(y)) and y != y
+        if nx or ny:
+            return bool(equal_nan and nx and ny)
+        return bool(abs(x - y) <= atol + rtol * abs(y))
+    r = np.frompyfunc(f, 2, 1)(_unwrap(a), _unwrap(b))
+    return np.asarray(r, dtype=bool) if np.ndim(r) else bool(r)
+
+
+def _h_isclose(a, b, **k):
+    return _isclose(a, b, **k)
+
+
+def _h_allclose(a, b, **k):
+    return bool(np.all(_isclose(a, b, **k)))
 
 
 def _h_argmax(a, axis=None, **kw):
@@ -792,7 +807,7 @@ _FUNCS = {
     np.ones_like: _h_ones_like,
     np.dot: _h_dot,
     np.isclose: _h_isclose,
-    np.allclose: _h_isclose,
+    np.allclose: _h_allclose,
     np.argmax: _h_argmax,
     np.argmin: _h_argmin,
     np.linalg.norm: _h_linalg_norm,
@@ -879,6 +894,18 @@ class NPProxy:
         if is_sym(a):
             return a.sqrt()
         return np.sqrt(a, **kw)
+
+    def isclose(self, a, b, **kw):
+        if has_sym(a) or has_sym(b):
+            return _isclose(a, b, **kw)
+        return np.isclose(a, b, **kw)
+
+    def where(self, *args, **kw):
+        # 0-d condition with symbolic branches: a plain selection (the condition was decided on the path)
+        if len(args) == 3 and not kw and np.ndim(args[0]) == 0 and isinstance(args[0], (bool, np.bool_)) and \
+                (is_sym(args[1]) or is_sym(args[2])):
+            return args[1] if bool(args[0]) else args[2]
+        return np.where(*args, **kw)
 
     def abs(self, a, **kw):
         if is_sym(a):
